@@ -36,6 +36,17 @@ pub fn lr_grammar(rng: &mut Rng, conflicts: bool) -> G {
         let d = Dials { max_nts: 2, max_terms: 2, max_alts: 4, max_rhs: 3, eps_pct: 25, nt_pct: 60 };
         return random_clean(rng, &d, false);
     }
+    if rng.chance(1, 8) {
+        // a start symbol with ONE production that occurs on no right-hand side (no augmentation), listed AFTER other
+        // productions: the accept action has to find the start production, which is not production 0
+        let w = |rng: &mut Rng| -> Vec<Sy> { (0..rng.range(1, 2)).map(|_| Sy::T(5 + rng.below(3) as u16)).collect() };
+        let mut prods = vec![(1, w(rng))];
+        if rng.chance(1, 2) { prods.push((1, { let mut x = w(rng); x.insert(0, Sy::T(8)); x })); }
+        prods.push((0, vec![Sy::N(1), Sy::N(2)]));
+        prods.push((2, { let mut x = w(rng); x.insert(0, Sy::T(9)); x }));
+        if rng.chance(1, 2) { prods.push((2, vec![Sy::T(10), Sy::N(1)])); }
+        return G { names: (0..3).map(nt_name).collect(), start: 0, prods };
+    }
     // left-recursive lists, expression-like grammars, recursive starts, random BNF
     match rng.below(6) {
         0 => {
